@@ -139,8 +139,12 @@ ConfFrame(B, T, e) ==
 \* that loses a hook must not make the checks silently vacuous (reported as machinery failure, not as a verdict)
 ConfHooks(Hh, B, e) ==
   IF e.ev # "tick" THEN {}
-  ELSE (IF Hh.nupd # Cardinality(DOMAIN B.veh) THEN {<<"Hooks", "update_events", "missing_or_extra", "step">>} ELSE {})
-       \cup (IF Hh.ninstr # Len(Hh.final) THEN {<<"Hooks", "instruction_events", "missing_or_extra", "step">>} ELSE {})
+  \* MISSING events mean the instrumentation no longer matches the pipeline (machinery failure); EXTRA ones mean the code
+  \* stepped a vehicle / applied an instruction more than once in the step - an ordinary divergence, monitoring goes on
+  ELSE (IF Hh.nupd < Cardinality(DOMAIN B.veh) THEN {<<"Hooks", "update_events", "missing", "step">>} ELSE {})
+       \cup (IF Hh.nupd > Cardinality(DOMAIN B.veh) THEN {<<"Update", "update_events", "a_vehicle_updated_twice_in_one_step", "step">>} ELSE {})
+       \cup (IF Hh.ninstr < Len(Hh.final) THEN {<<"Hooks", "instruction_events", "missing", "step">>} ELSE {})
+       \cup (IF Hh.ninstr > Len(Hh.final) THEN {<<"Instruct", "instruction_events", "more_instructions_applied_than_popped", "step">>} ELSE {})
 
 \* perform_vehicle_state_updates: non-queueing vehicles by id, then queueing vehicles by (enqueue time, id), the order
 \* being fixed from the state at the start of the update phase
